@@ -13,12 +13,16 @@ cd $wt
 demo=$(ls $src/*_test.go | head -1)
 git apply $src/patch.diff || { echo "patch does not apply"; exit 3; }
 go build ./... >/dev/null 2>&1; build=$?
-go test -vet=off -count=1 ./$pkg/... >/dev/null 2>&1; existing=$?
+go test -vet=off -count=1 ./$pkg/... 2>&1 | grep -E "^(--- FAIL|FAIL|ok)" | sed -E 's/[0-9]+\.[0-9]+s//g' | sort > /tmp/keepseed.with.$$
 cp $demo $pkg/zz_demo_test.go
 go test -vet=off -count=1 -run 'Demo|Seed' ./$pkg >/tmp/keepseed.$$ 2>&1; withchange=$?
 git checkout -- . 
 go test -vet=off -count=1 -run 'Demo|Seed' ./$pkg >/dev/null 2>&1; without=$?
 rm -f $pkg/zz_demo_test.go
+# existing tests: the set of failing tests must be the same as on the pristine tree
+go test -vet=off -count=1 ./$pkg/... 2>&1 | grep -E "^(--- FAIL|FAIL|ok)" | sed -E 's/[0-9]+\.[0-9]+s//g' | sort > /tmp/keepseed.base.$$
+if cmp -s /tmp/keepseed.with.$$ /tmp/keepseed.base.$$; then existing=0; else existing=1; fi
+rm -f /tmp/keepseed.with.$$ /tmp/keepseed.base.$$
 echo "build=$build existing_tests=$existing demo_with_change=$withchange demo_without=$without"
 if [ $build -eq 0 ] && [ $existing -eq 0 ] && [ $withchange -ne 0 ] && [ $without -eq 0 ]; then
   d=/verif/seeded/$name; mkdir -p $d
